@@ -306,7 +306,7 @@ def check_statement(env, run, idx, m, f, r, val, props01=("C01",)):
         env.ensure("C12:wellformed", ok, ("C12",), sig("malformed"), split=sp)
         return
     env.ensure("C01:accepted", True, ("C01",))
-    env.ensure("C02:size", st.size == len(bs), ("C02", "C12"), sig("size=%s,len=%d" % (st.size if native else "?", len(bs))), split=sp)
+    env.ensure("C02:size", st.size == len(bs), ("C02", "C12", "C01"), sig("size=%s,len=%d" % (st.size if native else "?", len(bs))), split=sp)
     d = mc6809.decode(bs)
     if not d.ok:
         env.fail("C01:decodes", ("C01", "C12"), sig("undecodable:%s" % d.why), split=sp)
